@@ -475,7 +475,8 @@ StepF(CT, o, act) ==
   IF act.op = "update_top" /\ ~(KwNames(act.kw) \subseteq AttrSet(CT, o.c)) THEN [val |-> o, res |-> {"TypeError"}, same |-> TRUE]
   ELSE IF act.op = "transform_top" /\ ~(KwNames(act.kwf) \subseteq AttrSet(CT, o.c)) THEN [val |-> o, res |-> {"TypeError"}, same |-> TRUE]
   ELSE IF "iff" \in DOMAIN act /\ ~act.iff THEN noop
-  ELSE IF inpl /\ Frozen(CT, o) /\ ~IsNoopForm(act) THEN
+  \* (reading a cached property of a frozen instance fills its cache: not an observable change, and not rejected)
+  ELSE IF inpl /\ act.op # "read" /\ Frozen(CT, o) /\ ~IsNoopForm(act) THEN
        \* rejected; when the call would fail anyway for another reason that report is acceptable too
        [val |-> o, res |-> IF "unspecified" \in Apply(CT, o, act).res THEN {"unspecified"}
                            ELSE {"FrozenInstanceError"} \cup (Apply(CT, o, act).res \ {"ok"}), same |-> TRUE]
